@@ -1,5 +1,6 @@
 """C04 - Function parameters become correctly laid-out, correctly wired controls."""
 
+import json
 import math
 
 from hypothesis import strategies as st
@@ -167,6 +168,8 @@ class Layout:
 # --- building ----------------------------------------------------------------------
 
 def fmt_default(p):
+    if p.get('raw_default'):
+        return p['raw_default']
     d = p['default']
     if isinstance(d, list):
         return repr(tuple(d))
@@ -373,6 +376,8 @@ def run_case(case, v):
         labels.append('lag_over_16')
     if case['prepend']:
         labels.append('prepend')
+    if 'raw_default' in json.dumps(case):
+        labels.append('prepended_param_with_odd_default')
     if case.get('variants'):
         labels.append('variants')
     if case.get('specs'):
@@ -437,6 +442,13 @@ def cases(draw, max_params=12, big=False):
         nprep = draw(st.integers(0, min(3, len(params)))) \
             if draw(st.integers(0, 3)) == 0 else 0
         prepend = [draw(st.sampled_from(NUMS)) for _ in range(nprep)]
+        for p in params[:nprep]:
+            # a prepended parameter never becomes a control: its default is
+            # the function's own business, whatever it is
+            if p['has_default'] and draw(st.integers(0, 2)) == 0:
+                p['raw_default'] = draw(st.sampled_from(
+                    ['((1, 1.0),)', "('a', 'b')", '((1, 2), (3, 4))',
+                     "'name'", '(None, 2)']))
         rest = params[nprep:]
         nr = draw(st.integers(0, len(rest)))
         rates = []
